@@ -5,6 +5,6 @@ CONSTANTS
   CODE_LinearChain = FALSE
   CODE_NoVisitedGuard = FALSE
 SPECIFICATION Spec
-INVARIANTS TypeOK Complete NeverRefusesWellFormed Bounded Emit
+INVARIANTS TypeOK Complete NeverRefusesWellFormed Bounded
 PROPERTIES Terminates
 CHECK_DEADLOCK FALSE
